@@ -16,79 +16,162 @@ class Lemma:
         self.name, self.statement, self.proof = name, statement, proof
 
 
-def _gen(contract, fn_node=None):
-    eng = core.Engine(contract, fn_node=fn_node)
-    eng.run()
-    return eng
+class _Item:
+    def __init__(self, contract, canaries):
+        self.c, self.canaries = contract, list(canaries)
+        self.fnname = f"{contract.source}::{contract.function}"
+        self.node = self.sha = self.eng = None
+        self.lemmas, self.axioms, self.error, self.status = [], [], None, "ok"
+        self.results, self.t0 = [], time.time()
 
 
-def verify(rep, contract, label="P", canaries=(), timeout_ms=30000, quiet=False, lemma_timeout_ms=30000):
-    """returns dict(status='ok'|'failed'|'undecided', results=[...])"""
-    fnname = f"{contract.source}::{contract.function}"
-    t0 = time.time()
+def _prepare(it):
+    c = it.c
     try:
-        src = core.Source.load(contract.source)
-        node = src.func(contract.function)
-        sha = src.sha(contract.function)
+        src = core.Source.load(c.source)
+        it.node = src.func(c.function)
+        it.sha = src.sha(c.function)
     except (core.EngineError, FileNotFoundError, SyntaxError) as ex:
-        rep.add_obligation(f"{contract.function}.<extract>", fnname, "undecided", "pyvc", 0.0, label, detail=str(ex)[:300])
-        return {"status": "undecided", "results": []}
-    # lemmas first: no axiom enters a VC unless its own proof obligation was discharged in this run
-    axioms = []
-    lemmas_ok = True
+        it.error = ("<extract>", ex)
+        return
     try:
-        lemmas = list(contract.axioms())
+        it.lemmas = list(c.axioms())
     except Exception as ex:
-        rep.add_obligation(f"{contract.function}.<lemmas>", fnname, "undecided", "pyvc", 0.0, label, detail=repr(ex)[:300])
-        return {"status": "undecided", "results": []}
-    for lem in lemmas:
-        if lem.proof is None:
-            axioms.append(lem.statement)
-            rep.trust(f"definition {lem.name} (used as axiom in {contract.function})")
-            continue
-        r = solve.prove(f"lemma.{lem.name}", lem.proof[0], lem.proof[1], lemma_timeout_ms)
-        ok = r.status == "unsat"
-        rep.add_obligation(f"lemma.{lem.name}", fnname, "discharged" if ok else "undecided", r.backend, r.secs, label,
-                           detail=None if ok else f"{r.status} {r.reason}")
-        if ok:
-            axioms.append(lem.statement)
-        else:
-            lemmas_ok = False
+        it.error = ("<lemmas>", ex)
+        return
     try:
-        eng = _gen(contract)
-    except (core.Unsupported, core.EngineError, KeyError, AttributeError, TypeError, z3_error()) as ex:
-        rep.add_function(contract.source, contract.function, getattr(node, "lineno", None), sha, role="under contract (not verified this run)")
-        rep.add_obligation(f"{contract.function}.<vcgen>", fnname, "undecided", "pyvc", time.time() - t0, label,
+        it.eng = core.Engine(c)
+        it.eng.run()
+    except (core.Unsupported, core.EngineError, KeyError, AttributeError, TypeError, IndexError, z3_error()) as ex:
+        it.error = ("<vcgen>", ex)
+        it.eng = None
+
+
+class _Ob:
+    def __init__(self, name, pc, goal):
+        self.name, self.pc, self.goal = name, pc, goal
+
+
+def verify_many(rep, items, label="P", timeout_ms=30000, quiet=True, lemma_timeout_ms=30000, run_canaries=True):
+    """items: list of (contract, canaries).  All lemmas and obligations of all items are discharged in one process pool."""
+    its = [_Item(c, can) for (c, can) in items]
+    for it in its:
+        _prepare(it)
+    # ---- batch 1: lemmas (no axiom enters a VC unless its own proof obligation is discharged in this run) ----
+    lem_jobs, lem_seen = [], {}
+    for it in its:
+        if it.error:
+            continue
+        for lem in it.lemmas:
+            if lem.proof is not None and lem.name not in lem_seen:
+                lem_seen[lem.name] = len(lem_jobs)
+                lem_jobs.append(_Ob(f"lemma.{lem.name}", list(lem.proof[0]), lem.proof[1]))
+    lem_res = solve.discharge(lem_jobs, (), lemma_timeout_ms) if lem_jobs else []
+    reported_lemmas = set()
+    for it in its:
+        if it.error:
+            continue
+        for lem in it.lemmas:
+            if lem.proof is None:
+                it.axioms.append(lem.statement)
+                rep.trust(f"definition/axiom {lem.name} (used in the VCs of {it.c.function})")
+                continue
+            r = lem_res[lem_seen[lem.name]]
+            ok = r.status == "unsat"
+            if lem.name not in reported_lemmas:
+                reported_lemmas.add(lem.name)
+                rep.add_obligation(f"lemma.{lem.name}", it.fnname, "discharged" if ok else "undecided", r.backend, r.secs, label,
+                                   detail=None if ok else f"{r.status} {r.reason}")
+            if ok:
+                it.axioms.append(lem.statement)
+            else:
+                it.status = "undecided"
+    # ---- batch 2: the obligations generated from the real source ----
+    jobs, owner = [], []
+    for idx, it in enumerate(its):
+        if it.error or it.eng is None:
+            continue
+        for ob in it.eng.obligations:
+            jobs.append(_Ob(ob.name, list(it.axioms) + list(ob.pc), ob.goal))
+            owner.append(idx)
+    res = solve.discharge(jobs, (), timeout_ms) if jobs else []
+    per = {}
+    for r, idx in zip(res, owner):
+        per.setdefault(idx, []).append(r)
+    out = []
+    for idx, it in enumerate(its):
+        out.append(_report(rep, it, per.get(idx, []), label, quiet))
+    # ---- batch 3: canary mutants of the functions that verified ----
+    if run_canaries:
+        cj, cown = [], []
+        for idx, it in enumerate(its):
+            if it.status != "ok" or it.eng is None:
+                continue
+            for (cname, transform) in it.canaries:
+                try:
+                    mnode = copy.deepcopy(it.node)
+                    transform(mnode)
+                    ast.fix_missing_locations(mnode)
+                except Exception as ex:
+                    rep.add_canary(it.c.function + getattr(it.c, "variant", ""), cname, True, by=f"not applicable to the current source ({ex!r})"[:120])
+                    continue
+                try:
+                    ceng = core.Engine(it.c, fn_node=mnode)
+                    ceng.run()
+                except (core.Unsupported, core.EngineError, KeyError, AttributeError, TypeError, IndexError) as ex:
+                    rep.add_canary(it.c.function + getattr(it.c, "variant", ""), cname, True, by=f"engine refuses mutant: {ex}"[:120])
+                    continue
+                for ob in ceng.obligations:
+                    cj.append(_Ob(ob.name, list(it.axioms) + list(ob.pc), ob.goal))
+                    cown.append((idx, cname))
+        cres = solve.discharge(cj, (), min(timeout_ms, 8000), use_cvc5=False) if cj else []
+        caught = {}
+        for r, key, ob in zip(cres, cown, cj):
+            caught.setdefault(key, None)
+            if r.status != "unsat" and caught[key] is None:
+                caught[key] = ob.name
+        for (idx, cname), by in caught.items():
+            rep.add_canary(its[idx].c.function + getattr(its[idx].c, "variant", ""), cname, by is not None, by=by)
+    return out
+
+
+def _report(rep, it, results, label, quiet):
+    c = it.c
+    if it.error:
+        where, ex = it.error
+        rep.add_function(c.source, c.function + getattr(c, "variant", ""), getattr(it.node, "lineno", None), it.sha, role="under contract (not verified this run)")
+        rep.add_obligation(f"{c.function}{getattr(c, 'variant', '')}.{where}", it.fnname, "undecided", "pyvc", time.time() - it.t0, label,
                            detail=f"{type(ex).__name__}: {ex}"[:400])
         if not quiet:
-            print(f"  [pyvc] {contract.function}: undecided ({type(ex).__name__}: {str(ex)[:200]})")
+            print(f"  [pyvc] {c.function}: undecided ({type(ex).__name__}: {str(ex)[:200]})")
+        it.status = "undecided"
         return {"status": "undecided", "results": [], "error": ex}
-    rep.add_function(contract.source, contract.function, node.lineno, sha, dropped=eng.dropped)
+    eng = it.eng
+    rep.add_function(c.source, c.function + getattr(c, "variant", ""), it.node.lineno, it.sha, dropped=sorted(set(eng.dropped)))
     if not eng.obligations:
-        rep.add_obligation(f"{contract.function}.<no-obligations>", fnname, "undecided", "pyvc", 0.0, label, detail="zero obligations generated")
+        rep.add_obligation(f"{c.function}.<no-obligations>", it.fnname, "undecided", "pyvc", 0.0, label, detail="zero obligations generated")
+        it.status = "undecided"
         return {"status": "undecided", "results": []}
-    results = solve.discharge(eng.obligations, axioms, timeout_ms)
-    status = "ok" if lemmas_ok else "undecided"
     failed = []
     for ob, r in zip(eng.obligations, results):
         if r.status == "unsat":
-            rep.add_obligation(ob.name, fnname, "discharged", r.backend, r.secs, label)
+            rep.add_obligation(ob.name, it.fnname, "discharged", r.backend, r.secs, label)
             continue
         confirmed = None
         if r.status == "sat":
             try:
-                confirmed = contract.replay(ob, r)          # -> None | dict(key, what, replay, confirmed)
+                confirmed = c.replay(ob, r)
             except Exception:
                 confirmed = {"confirmed": False, "what": "replay crashed: " + traceback.format_exc()[-300:]}
         if r.status == "sat" and (not r.quantified or (confirmed and confirmed.get("confirmed"))):
-            rep.add_obligation(ob.name, fnname, "failed", r.backend, r.secs, label, detail="refuted" + (" (replayed natively)" if confirmed and confirmed.get("confirmed") else ""))
+            rep.add_obligation(ob.name, it.fnname, "failed", r.backend, r.secs, label,
+                               detail="refuted" + (" (replayed natively)" if confirmed and confirmed.get("confirmed") else ""))
             failed.append((ob, r, confirmed))
-            status = "failed"
+            it.status = "failed"
         else:
-            rep.add_obligation(ob.name, fnname, "undecided", r.backend, r.secs, label, detail=f"{r.status} {r.reason}"[:200])
-            if status == "ok":
-                status = "undecided"
-    # group failed obligations by base name (path index stripped) -> one violation per named obligation
+            rep.add_obligation(ob.name, it.fnname, "undecided", r.backend, r.secs, label, detail=f"{r.status} {r.reason}"[:200])
+            if it.status == "ok":
+                it.status = "undecided"
     seen = set()
     for ob, r, confirmed in failed:
         base = ob.name.split("#")[0]
@@ -96,36 +179,36 @@ def verify(rep, contract, label="P", canaries=(), timeout_ms=30000, quiet=False,
             continue
         seen.add(base)
         native = bool(confirmed and confirmed.get("confirmed"))
-        key = (confirmed or {}).get("key") or f"{rep.pid}:{base}"
-        what = (confirmed or {}).get("what") or f"obligation {base} refuted by {r.backend}"
+        key = (confirmed or {}).get("key") if native else None
+        key = key or f"{rep.pid}:{base}"
+        what = ((confirmed or {}).get("what") if native else None) or f"obligation {base} refuted by {r.backend}"
         rep.violation(key, what,
-                      replay={"obligation": ob.name, "function": fnname, "source_sha256": sha, "branch_trail": ob.trail,
+                      replay={"obligation": ob.name, "function": it.fnname, "source_sha256": it.sha, "branch_trail": ob.trail,
                               "solver": r.backend, "solver_status": r.status, "model": r.model,
                               "native": (confirmed or {}).get("replay")},
                       obligation=ob.name, no_input=not native)
-    # canaries (only meaningful when the real source verifies)
-    if status == "ok":
-        for (cname, transform) in canaries:
-            try:
-                mnode = copy.deepcopy(node)
-                transform(mnode)
-                ast.fix_missing_locations(mnode)
-            except Exception as ex:
-                rep.add_canary(contract.function, cname, True, by=f"not applicable to the current source ({ex!r})"[:120])
-                continue
-            try:
-                ceng = core.Engine(contract, fn_node=mnode)
-                ceng.run()
-                cres = solve.discharge(ceng.obligations, axioms, min(timeout_ms, 10000), use_cvc5=False)
-                bad = [o.name for o, r in zip(ceng.obligations, cres) if r.status != "unsat"]
-                rep.add_canary(contract.function, cname, bool(bad), by=bad[0] if bad else None)
-            except (core.Unsupported, core.EngineError) as ex:
-                rep.add_canary(contract.function, cname, True, by=f"engine refuses mutant: {ex}"[:120])
+    if it.status != "failed" and it.status == "undecided":
+        # an undischarged (unknown) obligation: give the contract a chance to find a real failing input by its bounded native search
+        try:
+            und = [(ob, r) for ob, r in zip(eng.obligations, results) if r.status != "unsat"]
+            if und and hasattr(c, "replay"):
+                confirmed = c.replay(und[0][0], und[0][1])
+                if confirmed and confirmed.get("confirmed"):
+                    rep.violation(confirmed.get("key") or f"{rep.pid}:{und[0][0].name.split('#')[0]}", confirmed.get("what", ""),
+                                  replay={"obligation": und[0][0].name, "function": it.fnname, "solver_status": und[0][1].status,
+                                          "native": confirmed.get("replay")}, obligation=und[0][0].name, no_input=False)
+                    it.status = "failed"
+        except Exception:
+            pass
     if not quiet:
-        n = len(eng.obligations)
+        nn = len(eng.obligations)
         d = sum(1 for r in results if r.status == "unsat")
-        print(f"  [pyvc] {contract.function}: {d}/{n} obligations discharged, status={status}, {time.time() - t0:.1f}s")
-    return {"status": status, "results": list(zip(eng.obligations, results)), "engine": eng}
+        print(f"  [pyvc] {c.function}{getattr(c, 'variant', '')}: {d}/{nn} obligations discharged, status={it.status}, {time.time() - it.t0:.1f}s")
+    return {"status": it.status, "results": list(zip(eng.obligations, results)), "engine": eng}
+
+
+def verify(rep, contract, label="P", canaries=(), timeout_ms=30000, quiet=False, lemma_timeout_ms=30000):
+    return verify_many(rep, [(contract, canaries)], label, timeout_ms, quiet, lemma_timeout_ms)[0]
 
 
 def z3_error():
